@@ -6,6 +6,7 @@ import CM.Driver.OpsSel
 import CM.Driver.OpsRun
 import CM.Driver.OpsDiff
 import CM.Driver.OpsC19
+import CM.Driver.OpsDeps
 open Lean
 namespace CM.Driver
 
@@ -63,6 +64,11 @@ def dispatch (j : Json) : Except String Json := do
   | "patch_text" => opPatchText j
   | "regex_pipe" => opRegexPipe j
   | "xml_pipe" => opXmlPipe j
+  | "canon" => opCanon j
+  | "deps_add" => opDepsAdd j
+  | "req_add" => opReqAdd j
+  | "req_clean" => opReqClean j
+  | "cfg_build" => opCfgBuild j
   | _ => .error s!"bad-op: unknown op {op}"
 
 end CM.Driver
